@@ -26,6 +26,8 @@ def classify(am, tid, hist_before):
 
 def monitor(am, engine, cx, events, snaps):
     out = []
+    if any(o[0] == "err" for o in snaps[0].get("log", [])):
+        return out   # start() itself raised: the library did not agree to start this machine
     prev_hist = {}
     for k, sn in enumerate(snaps):
         if "special" in sn:
